@@ -17,7 +17,7 @@ SAN_FLAGS = ("-O1", "-g", "-fsanitize=address,undefined", "-fno-sanitize-recover
 
 NAME_CLASSES = {
     "alnum": b"name1", "underscores": b"a__b___c_", "escape": b"XxX20", "punct": b"q\"x\\y%s%n$.-/ ", "utf8_2": "é".encode(),
-    "utf8_3": "日本".encode(), "utf8_4": "😀".encode(), "highbytes": bytes([0x80, 0xFF, 0xC3, 0x28]), "empty": b"",
+    "utf8_3": "日本".encode(), "utf8_4": "😀".encode(), "highbytes": "\u0080\u00ff\u00c3(\ud7ff\U0010ffff".encode(), "empty": b"",
     "long1k": b"n" * 1024, "long5k": b"L_" * 2560, "ctrl": bytes([1, 9, 10, 13, 27]), "cident": b"main", "digits": b"0123",
 }
 
@@ -39,6 +39,7 @@ def shape_modules(rng, tier):
              "funcs": [{"type": 0, "locals": [["i32", 1]], "body": [["local.get", 0], ["call", 0], ["call", 1], ["global.get", 0], ["i32.add"], ["end"]]},
                        {"type": 1, "locals": [], "body": [["end"]]}],
              "exports": [{"name": nm(b), "kind": "func", "idx": 2}, {"name": nm(b + b"2"), "kind": "func", "idx": 3},
+                         {"name": nm(b + b"_again"), "kind": "func", "idx": 0}, {"name": nm(b + b"_again2"), "kind": "func", "idx": 1},     # imported functions exported again
                          {"name": nm(b"m" + b), "kind": "memory", "idx": 0}],
              "names": {"2": nm(b), "3": nm(b + b"_")}}
         mods.append(("names-" + cls, m))
